@@ -280,14 +280,11 @@ func (h *FakeLFSC) ServeHTTP(w http.ResponseWriter, r *http.Request) {
 }
 
 // FaultClient wraps a backup client: it injects one armed fault and reports
-// every acknowledged upload. It also closes the upload's pipe after the inner
-// client returns, as an HTTP transport does with a request body (the store
-// itself never closes it; without this an early return of the inner client
-// leaves the store's compaction goroutine blocked for ever).
+// every acknowledged upload.
 type FaultClient struct {
 	Inner litefs.BackupClient
 	// Arm names the fault to inject at the next matching call: wt-before,
-	// wt-after (reply lost), wt-partial, pm, fs, fs-partial. It is cleared when it fires.
+	// wt-after (reply lost), wt-partial, pm, pm-omit (position map answered without any database), fs, fs-partial. It is cleared when it fires.
 	Arm   string
 	Fired string
 	// OnAck is called after the service acknowledged an upload for name.
@@ -345,7 +342,12 @@ func (c *FaultClient) PosMap(ctx context.Context) (map[string]ltx.Pos, error) {
 		return nil, fmt.Errorf("injected: backup service unreachable")
 	}
 	m, err := c.Inner.PosMap(ctx)
-	if err == nil {
+	stale := false
+	if err == nil && c.take("pm-omit") {
+		// a stale answer: the databases another node has uploaded since are not listed yet
+		m, stale = map[string]ltx.Pos{}, true
+	}
+	if err == nil && !stale {
 		c.View = map[string]string{}
 		for k, v := range m {
 			c.setView(k, v.String())
@@ -376,12 +378,11 @@ func (c *cutReader) Read(p []byte) (int, error) {
 
 func (c *FaultClient) WriteTx(ctx context.Context, name string, r io.Reader) (ltx.TXID, error) {
 	c.Calls = append(c.Calls, "WriteTx "+name)
-	defer func() {
+	if c.take("wt-before") {
+		// a transport that cannot connect closes the request body it was given
 		if cl, ok := r.(io.Closer); ok {
 			_ = cl.Close()
 		}
-	}()
-	if c.take("wt-before") {
 		return 0, fmt.Errorf("injected: connection refused")
 	}
 	in := r
